@@ -65,3 +65,26 @@ Example C03_square_complete :
   let sq := [Pt2 0%Q 0%Q; Pt2 0%Q 1%Q; Pt2 1%Q 1%Q; Pt2 1%Q 0%Q] in
   triangulate2d sq = Some [3; 0; 1; 3; 1; 2]%Z /\ triangulate2d_rev sq = Some [0; 3; 2; 0; 2; 1]%Z.
 Proof. vm_compute. split; reflexivity. Qed.
+
+(* ---- the combinatorial tiling statement ---- *)
+From SCAD Require Import Geom.Tri_exact Geom.Dim3 Geom.Mesh_proofs Geom.Tri_tiling.
+(* no directed edge is used by two triangles, complete or not *)
+Theorem C03_no_edge_twice {T} `{Num T} : forall (poly : list (@vtx T)), NoDup (ids poly) ->
+  forall u v, (cntT u v (fst (run poly)) <= 1)%nat.
+Proof. intros poly Hnd. exact (clipv_at_most_once (ref_ccw poly) (length poly) poly Hnd). Qed.
+(* complete runs: every polygon edge used exactly once and never against its direction; every other ordered pair used
+   at most once and exactly as often as its reverse (interior diagonals are shared by exactly two triangles) *)
+Theorem C03_complete_tiling {T} `{Num T} : forall (poly : list (@vtx T)), NoDup (ids poly) -> (3 <= length poly)%nat -> complete poly ->
+  let tris := fst (run poly) in
+  (forall u v, (cntT u v tris <= 1)%nat) /\
+  (forall u v, pe poly u v -> cntT u v tris = 1%nat /\ cntT v u tris = 0%nat) /\
+  (forall u v, ~ pe poly u v -> ~ pe poly v u -> cntT u v tris = cntT v u tris).
+Proof. exact (@complete_tiling T H). Qed.
+(* the same for triangulate2d, in terms of the indices 0..n-1 *)
+Theorem C03_triangulate2d_tiling {T} `{Num T} : forall (v : list (pt2 T)), (3 < length v)%nat -> complete (enumerate v) ->
+  let n := Z.of_nat (length v) in let tris := fst (run (enumerate v)) in
+  triangulate2d v = Some (flat_map idx3 tris) /\
+  (forall a b, (cntT a b tris <= 1)%nat) /\
+  (forall i, (0 <= i < n)%Z -> cntT i ((i + 1) mod n) tris = 1%nat /\ cntT ((i + 1) mod n) i tris = 0%nat) /\
+  (forall a b, ~ ((0 <= a < n)%Z /\ b = ((a + 1) mod n)%Z) -> ~ ((0 <= b < n)%Z /\ a = ((b + 1) mod n)%Z) -> cntT a b tris = cntT b a tris).
+Proof. exact (@triangulate2d_tiling T H). Qed.
